@@ -80,21 +80,31 @@ class JSONPathRecursiveDescentSegment(JSONPathSegment):
 
     def _visit(self, node: JSONPathNode, depth: int = 1) -> Iterable[JSONPathNode]:
         """Depth-first, pre-order node traversal."""
-        if depth > self.env.max_recursion_depth:
-            raise JSONPathRecursionError("recursion limit exceeded", token=self.token)
+        # An explicit stack, so deeply nested data is bounded by
+        # max_recursion_depth and not by the interpreter's recursion limit.
+        stack = [(node, depth)]
 
-        yield node
+        while stack:
+            node, depth = stack.pop()
 
-        if isinstance(node.value, dict):
-            for name, val in node.value.items():
-                if isinstance(val, (dict, list)):
-                    _node = node.new_child(val, name)
-                    yield from self._visit(_node, depth + 1)
-        elif isinstance(node.value, list):
-            for i, element in enumerate(node.value):
-                if isinstance(element, (dict, list)):
-                    _node = node.new_child(element, i)
-                    yield from self._visit(_node, depth + 1)
+            if depth > self.env.max_recursion_depth:
+                raise JSONPathRecursionError(
+                    "recursion limit exceeded", token=self.token
+                )
+
+            yield node
+
+            children = []
+            if isinstance(node.value, dict):
+                for name, val in node.value.items():
+                    if isinstance(val, (dict, list)):
+                        children.append((node.new_child(val, name), depth + 1))
+            elif isinstance(node.value, list):
+                for i, element in enumerate(node.value):
+                    if isinstance(element, (dict, list)):
+                        children.append((node.new_child(element, i), depth + 1))
+
+            stack.extend(reversed(children))
 
     def _nondeterministic_visit(
         self,
